@@ -97,7 +97,9 @@ class _Sim:
         self.real = {}
 
     # ---------------------------------------------------------------- helpers
-    def norm(self, path):
+    def norm(self, path, follow_last=True):
+        """(absolute path, symlink-resolved path). follow_last=False for operations that act on a directory entry itself
+        (rename, remove, mkdir, rmdir, symlink, link): only the parent directory is resolved."""
         try:
             if isinstance(path, int):
                 return None, None
@@ -105,7 +107,9 @@ class _Sim:
             if isinstance(p, bytes):
                 p = os.fsdecode(p)
             a = os.path.normpath(os.path.join(os.getcwd(), p))
-            return a, os.path.realpath(a)
+            if follow_last:
+                return a, os.path.realpath(a)
+            return a, os.path.join(os.path.realpath(os.path.dirname(a)), os.path.basename(a))
         except Exception:  # pylint: disable=broad-except
             return repr(path), repr(path)
 
@@ -185,8 +189,9 @@ class _Sim:
                 if isinstance(x, (str, bytes)) or hasattr(x, "__fspath__"):
                     paths.append(x)
             recs = []
+            entry_op = event in ("os.rename", "os.remove", "os.rmdir", "os.mkdir", "os.symlink", "os.link", "os.mkfifo", "os.mknod")
             for p in paths:
-                a, real = self.norm(p)
+                a, real = self.norm(p, follow_last=not entry_op)
                 recs.append({"path": a, "real": real, "cls": classify(real, self.layout)})
             if event in ("os.mkdir", "os.chmod", "os.truncate", "os.utime", "os.rmdir", "os.remove", "os.chown"):
                 recs = recs[:1]
@@ -268,10 +273,10 @@ class _Sim:
 
             def wrapper(*a, **k):
                 if sim.armed and a:
-                    ab, real = sim.norm(a[0])
+                    ab, real = sim.norm(a[0], follow_last=False)
                     cls = classify(real, sim.layout)
                     if op == "rename" and len(a) > 1:
-                        _, real2 = sim.norm(a[1])
+                        _, real2 = sim.norm(a[1], follow_last=False)
                         cls2 = classify(real2, sim.layout)
                         f = sim.match_fault(op, cls2) or sim.match_fault(op, cls)
                     else:
